@@ -193,6 +193,9 @@ def cap_conditioner(subject, cfg, m, cap=4.0):
     net.eval()
     with torch.no_grad():
         out = net(x, ctx) if ctx is not None else net(x)
+        if out.numel() == 0:
+            net.train(was)
+            return
         M = float(out.abs().max())
         if M > cap and M == M:
             last.weight.mul_(cap / M)
